@@ -153,34 +153,74 @@ Definition w_step (w : wrapper) (inp : input) : wrapper * list eat_ev * output :
   | InClose => (finish_all w, [], OutNone)
   end.
 
-(* any sequence of calls, the reader going on after exceptions *)
-Fixpoint w_run (w : wrapper) (inps : list input) : wrapper * list eat_ev * list output :=
+(* any sequence of calls, the reader going on after exceptions; one record per call:
+   what the source answered, the eat_chunk calls made, what the reader got *)
+Record step_rec := { sr_in : input; sr_tr : list eat_ev; sr_out : output }.
+
+Fixpoint w_run (w : wrapper) (inps : list input) : wrapper * list step_rec :=
   match inps with
-  | [] => (w, [], [])
+  | [] => (w, [])
   | inp :: rest =>
     let '(w1, tr1, o) := w_step w inp in
-    let '(w2, tr2, os) := w_run w1 rest in
-    (w2, tr1 ++ tr2, o :: os)
+    let (w2, recs) := w_run w1 rest in
+    (w2, {| sr_in := inp; sr_tr := tr1; sr_out := o |} :: recs)
   end.
 
-(* a reader that stops at the first exception: chunks delivered, the exception with
-   the chunk that had been taken from the source by the failing call (None when the
-   source itself raised), the inputs that were never requested *)
-Definition lost_chunk (inp : input) : bytes := match inp with InChunk c => c | _ => [] end.
+Definition run_trace (recs : list step_rec) : list eat_ev := concat (map sr_tr recs).
 
+(* the chunk a call had taken from its source (lost when the call then raises) *)
+Definition taken (inp : input) : option bytes := match inp with InChunk c => Some c | _ => None end.
+Definition opt_bytes (o : option bytes) : bytes := match o with Some c => c | None => [] end.
+
+(* a reader that stops at the first exception: chunks delivered; the exception together
+   with the chunk the failing call had taken from the source (None: the source itself
+   raised); the source answers that were never requested *)
 Fixpoint w_run_stop (w : wrapper) (inps : list input)
-  : wrapper * list eat_ev * list bytes * option (exn * bytes) * list input :=
+  : wrapper * list eat_ev * list bytes * option (exn * option bytes) * list input :=
   match inps with
   | [] => (w, [], [], None, [])
   | inp :: rest =>
     let '(w1, tr1, o) := w_step w inp in
     match o with
-    | OutExn e => (w1, tr1, [], Some (e, lost_chunk inp), rest)
+    | OutExn e => (w1, tr1, [], Some (e, taken inp), rest)
     | OutChunk c =>
       let '(w2, tr2, cs, stop, unused) := w_run_stop w1 rest in (w2, tr1 ++ tr2, c :: cs, stop, unused)
     | OutNone =>
       let '(w2, tr2, cs, stop, unused) := w_run_stop w1 rest in (w2, tr1 ++ tr2, cs, stop, unused)
     end
+  end.
+
+(* ---- vocabulary for the statements (Proofs/Wrap.v, Properties/C06.v) *)
+
+(* is the inspector at position k in the errored set? *)
+Definition err_at (w : wrapper) (k : nat) : bool :=
+  match nth_error (w_slots w) k with Some s => s_err s | None => false end.
+
+(* Feeding chunks c0 c1 ... to an inspector in state i: the first chunk at which it
+   either raises (AbFault e) or is complete without matching after a successful
+   eat_chunk (AbMismatch), with the index of that chunk. *)
+Inductive abort_kind := AbFault (e : exn) | AbMismatch.
+Definition abort_exn (k : abort_kind) : exn := match k with AbFault e => e | AbMismatch => ImageFormatError end.
+
+Fixpoint first_abort (i : I) (cs : list bytes) : option (nat * abort_kind) :=
+  match cs with
+  | [] => None
+  | c :: cs' =>
+    let (i', oe) := eat i c in
+    match oe with
+    | Some e => Some (O, AbFault e)
+    | None =>
+      if complete i' && negb (fmatch i') then Some (O, AbMismatch)
+      else match first_abort i' cs' with Some (k, a) => Some (S k, a) | None => None end
+    end
+  end.
+
+(* state of an inspector after being fed chunks until its first exception, and
+   whether it raised (this is what a non-expected slot of the wrapper holds) *)
+Fixpoint feed (i : I) (cs : list bytes) : I * bool :=
+  match cs with
+  | [] => (i, false)
+  | c :: cs' => let (i', oe) := eat i c in match oe with Some _ => (i', true) | None => feed i' cs' end
   end.
 
 (* ---- the two concrete protocols *)
@@ -230,7 +270,7 @@ Fixpoint i_inputs (s : isrc) (n : nat) : list input * isrc :=
 (* a reader calling read(size) for each size in turn, stopping at the first exception:
    chunks delivered; the exception and the chunk the failing call had taken from the source *)
 Fixpoint run_reads (w : wrapper) (s : fsrc) (sizes : list Z)
-  : wrapper * fsrc * list eat_ev * list bytes * option (exn * bytes) :=
+  : wrapper * fsrc * list eat_ev * list bytes * option (exn * option bytes) :=
   match sizes with
   | [] => (w, s, [], [], None)
   | n :: rest =>
@@ -238,7 +278,7 @@ Fixpoint run_reads (w : wrapper) (s : fsrc) (sizes : list Z)
     match o with
     | OutChunk c =>
       let '(w2, s2, tr2, cs, stop) := run_reads w1 s1 rest in (w2, s2, tr1 ++ tr2, c :: cs, stop)
-    | OutExn e => (w1, s1, tr1, [], Some (e, lost_chunk inp))
+    | OutExn e => (w1, s1, tr1, [], Some (e, taken inp))
     | OutNone => (w1, s1, tr1, [], None)      (* never produced by read *)
     end
   end.
@@ -247,7 +287,7 @@ Fixpoint run_reads (w : wrapper) (s : fsrc) (sizes : list Z)
    loop; it is reported like any other exception).  [fuel] bounds the number of calls;
    S (length chunks) calls always reach the StopIteration. *)
 Fixpoint run_iter (fuel : nat) (w : wrapper) (s : isrc)
-  : wrapper * isrc * list eat_ev * list bytes * option (exn * bytes) :=
+  : wrapper * isrc * list eat_ev * list bytes * option (exn * option bytes) :=
   match fuel with
   | O => (w, s, [], [], None)
   | S k =>
@@ -255,7 +295,7 @@ Fixpoint run_iter (fuel : nat) (w : wrapper) (s : isrc)
     match o with
     | OutChunk c =>
       let '(w2, s2, tr2, cs, stop) := run_iter k w1 s1 in (w2, s2, tr1 ++ tr2, c :: cs, stop)
-    | OutExn e => (w1, s1, tr1, [], Some (e, lost_chunk inp))
+    | OutExn e => (w1, s1, tr1, [], Some (e, taken inp))
     | OutNone => (w1, s1, tr1, [], None)      (* never produced by __next__ *)
     end
   end.
